@@ -13,7 +13,8 @@
    Expected(includes) is either an error or the depth-first pre-order of the files, which is the order in which
    their items appear in every merged section.
    One file (odd) may additionally carry a section with a name dae does not know: merging must not lose it (it is
-   config.New that rejects it afterwards - ConfBuild.tla), wherever in the include graph the file sits. *)
+   config.New that rejects it afterwards - ConfBuild.tla), wherever in the include graph the file sits.
+   One file (twice) may spell its routing section in two blocks: the typed configuration holds the rules of both, in order. *)
 EXTENDS Integers, Sequences, FiniteSets, TLC, Json
 
 Files == {"main", "a", "z", "c", "b", "p", "o"}
@@ -31,12 +32,15 @@ Resolve(s) == CASE s = "a.dae" -> <<"a">> [] s = "z.dae" -> <<"z">> [] s = "sub/
                 [] s = "*" -> <<"a", "main", "z">> [] s = "missing.dae" -> <<>> [] s = "../E/z.dae" -> <<"z">>
 
 VARIABLES inc,     \* [{"main","a","b"} -> Seq(Specs)]
-          odd      \* the file that carries a section of unknown name ("none": no file does)
-vars == <<inc, odd>>
+          odd,     \* the file that carries a section of unknown name ("none": no file does)
+          twice    \* the file that spells its routing section in two blocks ("none": no file does): both blocks are part of the
+                   \* configuration, in the order written, whether or not anything is included
+vars == <<inc, odd, twice>>
 MainLists == {<<>>} \cup {<<s>> : s \in Specs} \cup {<<s, t>> : s \in Specs, t \in Specs}
 ALists == {<<>>, <<"sub/b.dae">>, <<"*.dae">>, <<"../p.dae">>, <<"z.dae">>}
 BLists == {<<>>, <<"a.dae">>, <<"ABS:a">>, <<"z.dae">>}
 Init == /\ odd \in {"none", "main", "a", "z", "b"}
+        /\ twice \in {"none", "main", "a"} /\ (twice # "none" => odd = "none")
         /\ inc \in {[f \in {"main", "a", "b"} |-> IF f = "main" THEN m ELSE IF f = "a" THEN a ELSE b] : m \in MainLists, a \in ALists, b \in BLists}
 Next == UNCHANGED vars
 Spec == Init /\ [][Next]_vars
@@ -75,7 +79,11 @@ Diamond == Expected.err = "circular" /\ ~HasCycle
 ReadsInScope == \A f \in Expected.reads : IsDae(f) /\ InScope(f)
 OrderNoDup == \A i, j \in 1..Len(Expected.order) : i # j => Expected.order[i] # Expected.order[j]
 
-Vector == [inc |-> [f \in {"main", "a", "b"} |-> inc[f]], err |-> Expected.err, order |-> Expected.order,
+\* the rules of the merged routing section: every file's rules in depth-first pre-order, a file's second block right after its first
+RECURSIVE RuleOrder(_, _)
+RuleOrder(o, i) == IF i > Len(o) THEN <<>>
+                   ELSE (IF o[i] = twice THEN <<o[i], o[i] \o "2">> ELSE <<o[i]>>) \o RuleOrder(o, i + 1)
+Vector == [twice |-> twice, rules |-> RuleOrder(Expected.order, 1), inc |-> [f \in {"main", "a", "b"} |-> inc[f]], err |-> Expected.err, order |-> Expected.order,
            reads |-> Expected.reads, diamond |-> Diamond,
            odd |-> odd, oddMerged |-> (Expected.err = "" /\ \E i \in 1..Len(Expected.order) : Expected.order[i] = odd)]
 Emit == PrintT(<<"VECTOR", ToJson(Vector)>>)
